@@ -228,9 +228,9 @@ func (e *Env) evalBinary(n *ast.BinaryExpr) Term {
 		case b.Sort == SSlice && isNilExpr(n.X):
 			r = eq(slArr(b), intLit(0))
 		case a.Sort == SStr && b.S == "str_empty":
-			r = eq(app(SInt, "str.len", a), intLit(0))
+			r = eq(app(SInt, "gstr.len", a), intLit(0))
 		case b.Sort == SStr && a.S == "str_empty":
-			r = eq(app(SInt, "str.len", b), intLit(0))
+			r = eq(app(SInt, "gstr.len", b), intLit(0))
 		case a.Sort != b.Sort:
 			// interface vs concrete comparison
 			if a.Sort == SIface && b.Sort != SIface {
@@ -258,7 +258,7 @@ func (e *Env) evalBinary(n *ast.BinaryExpr) Term {
 		return ge(a, b)
 	case token.ADD:
 		if a.Sort == SStr {
-			return app(SStr, "str.cat", a, b)
+			return app(SStr, "gstr.cat", a, b)
 		}
 		return add(a, b)
 	case token.SUB:
@@ -343,7 +343,7 @@ func (e *Env) evalIndex(n *ast.IndexExpr) Term {
 		return ite(e.st.readFam(e.cur, d, m, k), e.st.readFam(e.cur, v, m, k), e.u().zero(vs))
 	case *types.Basic:
 		if isStringType(t) {
-			return app(SInt, "str.at", e.eval(n.X), e.eval(n.Index))
+			return app(SInt, "gstr.at", e.eval(n.X), e.eval(n.Index))
 		}
 	}
 	// generic instantiation f[T] handled in evalCall
@@ -369,7 +369,9 @@ func (e *Env) evalSliceExpr(n *ast.SliceExpr) Term {
 	if n.Max != nil {
 		cp = sub(e.eval(n.Max), lo)
 	}
-	return mkSlice(slArr(s), add(slOff(s), lo), sub(hi, lo), cp)
+	r := mkSlice(slArr(s), add(slOff(s), lo), sub(hi, lo), cp)
+	e.st.noteSubslice(r, s, lo)
+	return r
 }
 
 func (e *Env) evalCall(n *ast.CallExpr) Term {
@@ -408,7 +410,7 @@ func (e *Env) evalCall(n *ast.CallExpr) Term {
 			case SSlice:
 				return slLen(a)
 			case SStr:
-				return app(SInt, "str.len", a)
+				return app(SInt, "gstr.len", a)
 			case SInt: // map
 				mt := e.typeOf(n.Args[0]).Underlying().(*types.Map)
 				_, _, l := e.st.mapFams(e.u().sortOf(mt.Key()), e.u().sortOf(mt.Elem()))
